@@ -49,6 +49,11 @@ def run(ctx):
         c = pc.gen_pose(rng, frames=rng.choice([5, 40, 200]), people=rng.choice([1, 2]), big=rng.random() < 0.3)
         if pc.representable(c) and pc.total_points(c["header"]) > 0:
             files.append((c, "large"))
+    # complete files with zero frames (a recording that was opened and closed): nothing can be cut out of their body, but bytes may follow them
+    for _ in range(ctx.pick(3, 12)):
+        c = pc.gen_pose(rng, frames=0, people=rng.choice([1, 2]))
+        if pc.representable(c) and pc.total_points(c["header"]) > 0 and len(refenc.v02(c)) < 400:
+            files.append((c, "small"))
     foreign = refenc.v02(pc.gen_pose(rng, frames=1, people=1, ncomps=1))
     reqs, meta = [], []
     tf_jobs = []
@@ -81,8 +86,8 @@ def run(ctx):
             # windowed stream reads on the prefix
             F = case["body"]["frames"]
             for _ in range(2 if kind == "small" else 1):
-                s = rng.randrange(0, F)
-                e = rng.choice([s + 1, F, F + 3, rng.randint(s, F)])
+                s = rng.randrange(0, F) if F else 0
+                e = rng.choice([s + 1, F, F + 3, rng.randint(s, max(s, F))])
                 win = {"start_frame": s, "end_frame": e}
                 res = c03.impl_read(prefix, "stream", win, None)
                 ref = c03.impl_read(raw, "stream", win, None)
